@@ -111,7 +111,7 @@ class C12(core.Prop):
             "a client, unknown getProperties / enableBLOB targets, non-message elements) x every target vector kind x every position in a session "
             "of valid traffic x transport {TCP handler, TTY handler, direct router call}; non-trivial = session containing a hostile message; "
             "distinct by (transport, texts)")
-    assumptions = ["one message per read (fragmentation is C02's subject)", "the observing second client has enabled BLOBs (policy Also)"]
+    assumptions = ["one message per read, or the hostile message and the next one in a single read framed as to_string frames them (fragmentation is C02's subject)", "the observing second client has enabled BLOBs (policy Also)"]
     per_case_timeout = 10
 
     def gen(self, rng, tier):
@@ -145,6 +145,9 @@ class C12(core.Prop):
                         for tr in (["tcp", "tty", "direct"] if tier == "thorough" else [rng.choice(["tcp", "tty", "direct"])]):
                             cases.append({"label": label, "defn": defn, "transport": tr, "target": vname,
                                           "texts": [latin(t) for t, _ in seq], "allowed": [a for _, a in seq], "hostile_at": pos})
+                            if tr == "tcp" and pos + 1 < len(seq):
+                                # the same session with the hostile message and the valid one behind it in a single read
+                                cases.append(dict(cases[-1], coalesce=pos))
         # what the model's own parser makes of every text
         texts = sorted({t for c in cases for t in c["texts"]})
         res, err = core.run_model("fromstring", texts)
@@ -181,9 +184,22 @@ class C12(core.Prop):
         if len(obs["steps"]) != len(c["texts"]):
             return "the %s transport stopped after %d of %d messages" % (c["transport"], len(obs["steps"]), len(c["texts"]))
         per_step = {i: tr for i, tr in zip(index, traces)}
+        co = c.get("coalesce")
         for i, step in enumerate(obs["steps"]):
             want = [e[1] for e in drvcmp.model_trace(per_step.get(i, []))[0] if e[0] == "pub"]
             got = [v for v in step["seen"] if v["attrs"].get("device") == c["defn"]["name"] and not self.relayed(c, i, v)]
+            if co is not None and i == co:
+                # both messages of the coalesced read are handled before the next read: their effects show together
+                want += [e[1] for e in drvcmp.model_trace(per_step.get(i + 1, []))[0] if e[0] == "pub"]
+                got = [v for v in step["seen"] if v["attrs"].get("device") == c["defn"]["name"]]
+                for j in (i, i + 1):
+                    # what a client sent is relayed to the observer once: take that one copy out, not the device's own messages of that kind
+                    for k, v in enumerate(got):
+                        if self.relayed(c, j, v):
+                            del got[k]
+                            break
+            elif co is not None and i == co + 1:
+                want = []
             if got != want:
                 return "step %d (%s): device published %s, model %s" % (i, c["label"] if i == c["hostile_at"] else "valid",
                                                                           [v["kind"] for v in got], [v["kind"] for v in want])
@@ -211,6 +227,8 @@ class C12(core.Prop):
                 return "connection-closed: after %s the %s connection is closed or unregistered" % (what, where)
             if prev is not None:
                 allowed = set(tuple(a) for a in c["allowed"][i])
+                if c.get("coalesce") == i:
+                    allowed |= set(tuple(a) for a in c["allowed"][i + 1])
                 vk = {vn: gv[1] for vn, gv in drvgen.all_vectors(c["defn"]).items()}
                 for vn, _ in list(allowed):      # a switch write may flip its siblings through the rule
                     if vk[vn]["kind"] == "Switch":
@@ -225,7 +243,8 @@ class C12(core.Prop):
             prev = step["state"]
         last = len(c["texts"]) - 1
         defs = [v for v in obs["steps"][last]["seen"] if v["kind"].startswith("def")] if c["hostile_at"] != last + 0 else None
-        if c["hostile_at"] != last and not [v for v in obs["steps"][last]["seen"]]:
+        at = last - 1 if c.get("coalesce") == last - 1 else last     # a coalesced read shows both messages' effects in its own step
+        if c["hostile_at"] != last and not [v for v in obs["steps"][at]["seen"]]:
             return "not-served: the final getProperties on the same connection got no reply (%s)" % where
         return None
 
